@@ -281,6 +281,7 @@ SPECS["C03"] = dict(
             dict(id="engine", run="^TestC03AsyncEngine$", quick=dict(shards=3, checks=120, timeout=600, shrinktime=30), thorough=dict(shards=4, checks=5000, timeout=3000, shrinktime=300)),
             dict(id="bursts", run="^TestC03AsyncBursts$", quick=dict(shards=3, checks=40, timeout=600, shrinktime=20), thorough=dict(shards=4, checks=400, timeout=3000, shrinktime=60)),
             dict(id="storm", run="^TestC03ReadyStorm$", quick=dict(shards=2, checks=40, timeout=600, shrinktime=20), thorough=dict(shards=4, checks=300, timeout=3000, shrinktime=60)),
+            dict(id="acrossclose", run="^TestC03CallbacksAcrossClose$", quick=dict(shards=2, checks=100, timeout=600, shrinktime=20), thorough=dict(shards=4, checks=4000, timeout=3000, shrinktime=60)),
             dict(id="registrations", run="^TestC03Registrations$", quick=dict(shards=2, checks=60, timeout=600, shrinktime=20), thorough=dict(shards=4, checks=1500, timeout=3000, shrinktime=60)),
         ]) for tg in ["", "poll_opt,gc_opt"]],
 )
